@@ -64,6 +64,9 @@ F1Attrs ==
   \cup {Attr("model:", n, v) : n \in {"v", "v-x"}, v \in AllVals}
   \cup {Attr("change:", "p-q", v) : v \in AllVals}
   \cup {Attr(f, "w-x", v) : f \in {"worklet:", "generic:", "extra-attr:"}, v \in {None, SV("s1")}}
+  (* a dash followed by a digit, an underscore or a dash: only the character right after a dash is affected *)
+  \cup {Attr(f, n, v) : f \in {"data-", "model:", "change:"}, n \in {"r-2nd-e", "v-2x", "p-_q", "a--b"}, v \in {EV(EA), SV("s1")}}
+  \cup {Attr("worklet:", "on-3d", SV("s1"))}
   \cup {Attr("slot", "", v) : v \in {SV("s1"), EV(EA), MV(<<S("x"), P(EA)>>)}}
 
 F1 == {File1(<<Elem("v", <<a>>, <<>>)>>) : a \in F1Attrs}
@@ -275,6 +278,8 @@ F7 ==    {FileS(<<Elem("v", <<Attr("model:", "v", EV(e))>>, <<>>)>>) : e \in LAl
              l \in {Id("l"), Id("ol"), Mem(Id("o"), "q"), Arr(<<Item(Id("a")), Item(Id("b"))>>), Cond(Id("c"), Id("l"), Id("ol")),
                     (* a conditional list with one branch that is no path: its items have a path only when the other branch is taken *)
                     Cond(Id("c"), Id("l"), Lit("2")), Cond(Id("c"), Lit("'ab'"), Id("l")),
+                    (* one branch in the data, the other in a script module: whichever is taken decides what the items' paths are *)
+                    Cond(Id("c"), Id("l"), Mem(Id("m"), "list")), Cond(Id("c"), Mem(Id("m"), "list"), Id("l")),
                     Mem(Idx(Id("l"), Lit("0")), "sub"), Bin("||", Id("l"), Id("ol")), Call(Id("f"), <<Id("l")>>),
                     Mem(Cond(Id("c"), Idx(Id("l"), Lit("0")), Idx(Id("l"), Lit("0"))), "sub"),
                     Mem(Cond(Id("c"), Cond(Id("a"), Idx(Id("l"), Lit("0")), Idx(Id("l"), Lit("0"))), Idx(Id("l"), Lit("0"))), "sub")},
